@@ -763,7 +763,20 @@ def tasks(tier, seed):
 # ---------------------------------------------------------------------------------------
 
 
+_REPLAY_CACHE = {}
+
+
 def replay(key, obligation, witness):
+    """memoised per configuration (many obligations of one configuration share one real-code run)"""
+    import json
+
+    ck = json.dumps(((witness or {}).get("notes") or {}), sort_keys=True, default=str)
+    if ck not in _REPLAY_CACHE:
+        _REPLAY_CACHE[ck] = _replay(key, obligation, witness)
+    return _REPLAY_CACHE[ck]
+
+
+def _replay(key, obligation, witness):
     """Real detectors under real JAX: drive the failing configuration class over a random field
     history and compare the record / flux with the windowed DFT of the FieldDetector history."""
     notes = (witness or {}).get("notes") or {}
